@@ -74,6 +74,13 @@ fn draw_app(d: &mut Draws, key: &str, i: usize) -> AppModel {
         let names = ["ap", "brand", "x-y.z"];
         extra.push((names[e as usize].to_string(), ["", "v", "with \"quotes\" and \\"][d.draw(&format!("{key}/extra#{e}"), 3) as usize].to_string()));
     }
+    // an extra field may carry the name of a protocol member the app does not use itself
+    if fp.is_none() && d.draw(&format!("{key}/extra.fp"), 6) == 5 {
+        extra.push(("fp".to_string(), "extra-fp".to_string()));
+    }
+    if cohort.2.is_none() && d.draw(&format!("{key}/extra.cohortname"), 6) == 5 {
+        extra.push(("cohortname".to_string(), "extra-name".to_string()));
+    }
     AppModel { id: format!("app-{i}"), version, fp, cohort, day, extra }
 }
 
@@ -196,7 +203,11 @@ pub fn run_builder(p: &Profile, cfg: &RunCfg) -> (RunOut, MonOut) {
                 offer_update_if_same_version: d.draw("params/same", 3) == 2,
             };
             let napps = 1 + d.draw("napps", 3) as usize;
-            let models: Vec<AppModel> = (0..napps).map(|i| draw_app(d, &format!("app#{i}"), i)).collect();
+            let mut models: Vec<AppModel> = (0..napps).map(|i| draw_app(d, &format!("app#{i}"), i)).collect();
+            // two different apps whose ids differ in the case of letters only
+            if napps >= 2 && d.draw("ids/case_variant", 4) == 3 {
+                models[1].id = models[0].id.to_uppercase();
+            }
             // a later insertion of the same id with another cohort
             let mut insertions: Vec<AppModel> = models.clone();
             for i in 0..napps {
